@@ -29,6 +29,8 @@ def profiles(tier):
         ("GenBuiltin", "lang/GenBuiltin.cfg", {}, 0),
         ("GenOrder", "lang/GenOrder.cfg", {}, 1),
         ("GenTemplate", "lang/GenTemplate.cfg", {}, 0),
+        # the site x type x route table: its well-typed cells have a defined result and must be accepted and agree
+        ("GenDyn", "lang/GenDyn.cfg", {}, 0),
         ("MCGenStmt", "lang/MCGen.cfg", {"MAXSTMTS": 4 if q else 5, "MAXDEPTH": 4, "EVENTS": 1}, 1),
         ("MCGenFn", "lang/MCGen.cfg", {"MAXSTMTS": 4 if q else 5, "MAXDEPTH": 3, "EVENTS": 1}, 1),
         ("MCGenStr", "lang/MCGen.cfg", {"MAXSTMTS": 3 if q else 4, "MAXDEPTH": 3, "EVENTS": 1}, 1),
@@ -41,6 +43,10 @@ def run(tier):
     tally = le.Tally()
     for module, cfg, env, ev in profiles(tier):
         r = le.generate(module, env=env, cfg=cfg, timeout=2400, coverage=cfg.endswith("MCGen.cfg"))
+        if module == "GenDyn":
+            # only the route whose operands are certainly dynamic for ANY checker (parameters): the other routes deliver
+            # values whose type a checker may legitimately know (call results, re-assigned variables, literal elements)
+            r.records = [x for x in r.records if x.get("route") == "param"]
         tally.add_tlc(module, r)
         judged = le.replay(r.records, modes=["nn", "fn", "fp"], ev=ev, compare_events=bool(ev))
         tally.add(judged)
